@@ -146,6 +146,39 @@ theorem channel_bounds_are_facing_obstacle_sides (tie : Bool) (so : List SO) (p 
     (∀ x ∈ scanMaxBounds tie so p lo hi, ∃ o ∈ so, x = o.mn ∧ p ≤ o.mn ∧ o.amin ≤ hi ∧ lo ≤ o.amax) :=
   ⟨NudgeSegsChannel.scanMinBounds_sound tie so p lo hi hlh hwf, NudgeSegsChannel.scanMaxBounds_sound tie so p lo hi hlh hwf⟩
 
+/-- As coded, `firstObstacleAbove` walks the scan line in the order of the obstacles' MID coordinates and stops at the first one
+    lying completely before the segment; with overlapping obstacles that is not the nearest side.  Closed witness: a segment
+    at 10 with extent [0,10]; obstacle A = [4,6] (mid 5) and obstacle B = [0,8] (mid 4), both spanning [-5,15] in the other
+    dimension (their Open / Close events lie outside the segment's extent, so `markShiftSegments…` never sees the segment):
+    the sweep's only lower bound is A's side 6 although B reaches up to 8 — the segment may be shifted into B.
+    (Not a clause of the property text; overlapping shapes only.) -/
+theorem sweep_orders_by_mid_witness :
+    let a : SO := ⟨5, 4, 6, -5, 15⟩
+    let b : SO := ⟨4, 0, 8, -5, 15⟩
+    scanMinBounds false [a, b] 10 0 10 = [6, 6] ∧ scanMinBounds true [a, b] 10 0 10 = [6, 6] ∧ b.mx ≤ 10 ∧ 6 < b.mx := by
+  decide +kernel
+
+/-! ### (f) `linesort` merging two aligned segments of one connector (`mergeWith`) -/
+
+/-- the merged segment may move only where BOTH could; when that interval is not empty its new position lies in it, and
+    between the two old positions if those were inside it; flags and checkpoints are the survivor's -/
+theorem merge_respects_limits (a b : RSeg) :
+    (mergeSeg a b).minLim = max a.minLim b.minLim ∧ (mergeSeg a b).maxLim = min a.maxLim b.maxLim ∧
+    (a.minLim ≤ (mergeSeg a b).minLim ∧ b.minLim ≤ (mergeSeg a b).minLim ∧ (mergeSeg a b).maxLim ≤ a.maxLim ∧ (mergeSeg a b).maxLim ≤ b.maxLim) ∧
+    ((mergeSeg a b).minLim ≤ (mergeSeg a b).maxLim → (mergeSeg a b).minLim ≤ (mergeSeg a b).pos ∧ (mergeSeg a b).pos ≤ (mergeSeg a b).maxLim) ∧
+    ((mergeSeg a b).minLim ≤ min a.pos b.pos → max a.pos b.pos ≤ (mergeSeg a b).maxLim →
+      min a.pos b.pos ≤ (mergeSeg a b).pos ∧ (mergeSeg a b).pos ≤ max a.pos b.pos) ∧
+    (mergeSeg a b).fixed = a.fixed ∧ (mergeSeg a b).finalSeg = a.finalSeg ∧ (mergeSeg a b).cps = a.cps ∧ (mergeSeg a b).conn = a.conn := by
+  simp only [mergeSeg]
+  refine ⟨trivial, trivial, ⟨by grind, by grind, by grind, by grind⟩, ?_, ?_, trivial, trivial, trivial, trivial⟩
+  · intro h; constructor <;> grind
+  · intro h1 h2
+    split
+    · constructor <;> grind
+    · split
+      · constructor <;> grind
+      · constructor <;> grind
+
 /-! ### non-vacuity: closed witnesses, evaluated by the kernel -/
 
 /-- a Z-shaped connector with a checkpoint strictly inside its first segment -/
